@@ -2,6 +2,7 @@ SPECIFICATION Spec
 CONSTANTS
   Universe = {"a","b","c"}
   MaxSteps = 4
+  MaxGen = 2
 VIEW MCView
 PROPERTIES RequestsOnlyCommon EndsNegotiation
 ACTION_CONSTRAINT Emit
